@@ -673,6 +673,14 @@ def poly_S(c):
     return S
 
 
+def poly_S_elementwise(c):
+    """the same function written as one elementwise expression (the result keeps the memory layout of its arguments, as the
+    library's own scattering functions do)"""
+    def S(x, y):
+        return (c[0] + c[1] * x + c[2] * y + c[3] * x * y) + 1j * (c[4] + c[5] * x + c[6] * y)
+    return S
+
+
 def a_line(cmd, kind, ne, ng, a, tx, rx, G, arrays, sdesc, tail=""):
     Qtx, Qrx, Ttx, Trx = arrays
     toks = [cmd, kind, str(ne), str(ng), str(len(tx)), str(len(G)), fhex(a)]
@@ -743,9 +751,15 @@ for s_i in range(2 if Q else 15):
         chk.count(matrix_layout=["C", "F", "transposed view", "slice of a stack"][lay])
     funcs = {k: poly_S(c) for k, c in coeff.items()}
     tx, rx = (arim.ut.fmc(ne) if rng.random() < 0.5 else arim.ut.hmc(ne))
+    if s_i % 2 == 1:
+        # a pulse-echo capture written with ONE index array used for both roles (tx is rx, the same ndarray object)
+        tx = rx = np.arange(ne)
+        chk.count(end_to_end_capture="pulse-echo, tx is rx (one array object)")
     a = float(rng.uniform(-np.pi, np.pi))
     vnames = list(views.keys())
-    for vn in [vnames[i] for i in rng.permutation(len(vnames))[:(6 if Q else 12)]]:
+    # (the views whose two paths are the same Path object are always among those looked at)
+    same_path_ = [vn_ for vn_ in vnames if views[vn_].tx_path is views[vn_].rx_path][:2]
+    for vn in same_path_ + [vnames[i] for i in rng.permutation(len(vnames))[:(6 if Q else 12)]]:
         v = views[vn]
         key = v.tx_path.modes[-1].key() + v.rx_path.modes[-1].key()
         qt, qr = rwts.tx_ray_weights_dict[v.tx_path], rwts.rx_ray_weights_dict[v.rx_path]
@@ -1070,6 +1084,9 @@ s_lines, s_meta = [], []
 for c_i in range(nsens):
     ne, ng = int(rng.integers(1, 5)), int(rng.integers(1, 10))
     exact = rng.random() < 0.5
+    many_tt = c_i % 6 == 1          # full matrices of 4 to 6 elements: 16 to 36 timetraces per grid point
+    if many_tt:
+        ne, ng, exact = int(rng.integers(4, 7)), int(rng.integers(3, 40)), False
     arrays = gen_arrays(ne, ng, exact)
     Qtx, Qrx, Ttx, Trx = arrays
     if exact:
@@ -1079,15 +1096,17 @@ for c_i in range(nsens):
         a = float(rng.integers(-48, 49)) / 64
     else:
         _, tx, rx = gen_txrx(ne)
+        if many_tt:
+            tx, rx = (np.asarray(v_, np.int_) for v_ in arim.ut.fmc(ne))
         if len(tx) == 0:
             tx, rx = np.array([0], np.int_), np.array([0], np.int_)
         ntt = len(tx)
         w = rng.uniform(0, 1, ntt)
         a = float(rng.uniform(-np.pi, np.pi))
-    cls = "F" if rng.random() < 0.6 else "M"
+    cls = "F" if (rng.random() < 0.6 or many_tt) else "M"
     if cls == "F":
         sdesc = [float(v) for v in (rng.integers(-6, 7, 7) / 2 if exact else rng.standard_normal(7))]
-        scat_obj = poly_S(sdesc)
+        scat_obj = poly_S_elementwise(sdesc) if many_tt else poly_S(sdesc)
     else:
         n = int(rng.integers(1, 7))
         sdesc = np.full((n, n), complex(1.5, -0.25)) if exact else rng.standard_normal((n, n)) + 1j * rng.standard_normal((n, n))
@@ -1121,6 +1140,7 @@ for c_i in range(nsens):
     sizes = list(range(1, 2 * ng + 1)) + [4000]
     if Q and len(sizes) > 8:
         sizes = sorted(set([1, 2, ng - 1, ng, ng + 1, 2 * ng, 4000] + [int(x) for x in rng.integers(1, 2 * ng + 1, 2)]) - {0})
+    first_bits = None
     for bs in sizes:
         via_method = rng.random() < 0.5
         if via_method:
@@ -1129,6 +1149,17 @@ for c_i in range(nsens):
         else:
             su = model.sensitivity_uniform_tfm(ma, w, block_size=bs)
             sa = model.sensitivity_model_assisted_tfm(ma, w, block_size=bs)
+        # the sensitivity of a grid point is one fixed sum over the timetraces: the SAME floating-point number whatever block
+        # the point falls in (bit for bit between block sizes; a one-point block included)
+        bits_ = (np.ascontiguousarray(np.asarray(su)).tobytes(), np.ascontiguousarray(np.asarray(sa)).tobytes())
+        if first_bits is None:
+            first_bits = (bs, bits_, np.asarray(su), np.asarray(sa))
+        elif bits_ != first_bits[1] and not getattr(chk, "_sens_bits_reported", False):
+            chk._sens_bits_reported = True
+            chk.violation(f"sens:bits:{cls}", f"the sensitivities computed with block sizes {first_bits[0]} and {bs} are not bit-identical",
+                          dict(cls=cls, numpoints=ng, numtimetraces=ntt, block_sizes=[first_bits[0], bs], weights=w,
+                               uniform_a=first_bits[2], uniform_b=np.asarray(su), assisted_a=first_bits[3], assisted_b=np.asarray(sa),
+                               max_abs_difference=float(np.nanmax(np.abs(np.asarray(su) - first_bits[2]))) if np.asarray(su).shape == first_bits[2].shape else None))
         s_lines.append(a_line("S", cls, ne, ng, a, tx, rx, [], arrays, sdesc, tail=f" {bs} " + " ".join(fhex(x) for x in w)))
         s_meta.append(dict(cls=cls, kind=cls, exact=exact, ne=ne, ng=ng, a=a, tx=tx, rx=rx, G=[], sel="...", arrays=arrays, sdesc=sdesc,
                            w=w, bs=bs, su=np.asarray(su), sa=np.asarray(sa), du=def_uniform, da=def_assisted, ntt=ntt))
